@@ -355,6 +355,13 @@ def register(cat):
     def gen_contract(c, r):
         sh = shp(c.obj(r))
         pairs = [(i, j) for i in range(len(sh)) for j in range(len(sh)) if i != j and sh[i] != sh[j]]
+        if len(sh) >= 2 and c.g.random() < 0.3:
+            # a mode counted from the end, or beyond the last one
+            i = c.g.randrange(len(sh))
+            j = c.g.choice([-1, -len(sh), len(sh), len(sh) + 1])
+            if c.g.random() < 0.5:
+                i, j = j, i
+            return {"operands": [r], "i": i, "j": j}
         if pairs and c.g.random() < 0.7:
             i, j = c.g.choice(pairs)
         else:
@@ -363,6 +370,8 @@ def register(cat):
 
     def bad_contract(ops, st):
         sh = shp(ops[0])
+        if not (0 <= st["i"] < len(sh) and 0 <= st["j"] < len(sh)):
+            return True
         return st["i"] == st["j"] or sh[st["i"]] != sh[st["j"]]
 
     bad("T.contract_invalid", "T", gen_contract, lambda eng, ops, st: ops[0].contract(st["i"], st["j"]), bad_contract)
@@ -650,7 +659,7 @@ def register(cat):
     def gen_sptenmat_ctor(c, r):
         shape = list(c.g.choice(c.heap_families()))
         n = len(shape)
-        kind = c.g.choice(["partition", "beyond", "count", "at_end", "at_end"])
+        kind = c.g.choice(["partition", "beyond", "count", "at_end", "at_end", "negative"])
         rd, cd = [0], list(range(1, n))
         rows, cols = shape[0], int(np.prod(shape[1:]))
         subs = np.array([[0, 0], [rows - 1, cols - 1]], dtype=int)
@@ -659,6 +668,8 @@ def register(cat):
             cd = cd[:-1] if len(cd) > 1 else [0]
         elif kind == "beyond":
             subs[1, 0] = rows + 1
+        elif kind == "negative":
+            subs[0, c.g.randrange(2)] = -1
         elif kind == "at_end":
             # the first index that no longer exists (row count / column count itself)
             if c.g.random() < 0.5:
@@ -675,7 +686,7 @@ def register(cat):
             return True
         rows = int(np.prod([sh[d] for d in st["rdims"]]))
         cols = int(np.prod([sh[d] for d in st["cdims"]]))
-        return ops[0].shape[0] != ops[1].shape[0] or bool((ops[0] >= np.array([rows, cols])).any())
+        return ops[0].shape[0] != ops[1].shape[0] or bool((ops[0] >= np.array([rows, cols])).any()) or bool((ops[0] < 0).any())
 
     bad("sptenmat_ctor_inconsistent", None, gen_sptenmat_ctor, lambda eng, ops, st: ttb.sptenmat(ops[0], ops[1], np.array(st["rdims"]), np.array(st["cdims"]), tuple(st["tshape"])), bad_sptenmat)
 
@@ -812,6 +823,47 @@ def register(cat):
     bad("K.arrange_both_arguments", "K", lambda c, r: {"operands": [r, c.fresh(np.arange(c.obj(r).ncomponents, dtype=int))]}, lambda eng, ops, st: ops[0].arrange(weight_factor=0, permutation=ops[1]), lambda ops, st: True)
     bad("K.normalize_mode_out_of_range", "K", lambda c, r: {"operands": [r], "mode": c.obj(r).ndims + c.g.randint(0, 1)}, lambda eng, ops, st: ops[0].normalize(mode=st["mode"]), lambda ops, st: st["mode"] >= ops[0].ndims)
     bad("K.redistribute_out_of_range", "K", lambda c, r: {"operands": [r], "mode": c.obj(r).ndims + c.g.randint(0, 1)}, lambda eng, ops, st: ops[0].redistribute(st["mode"]), lambda ops, st: st["mode"] >= ops[0].ndims)
+
+    for kind in ("T", "S"):
+        def gen_collapse_dims(c, r):
+            n = c.obj(r).ndims
+            dims = [n + c.g.randint(0, 2)]
+            if n >= 2 and c.g.random() < 0.4:
+                dims = [c.g.randrange(n)] + dims
+            return {"operands": [r], "dims": dims}
+
+        bad(kind + ".collapse_dims_out_of_range", kind, gen_collapse_dims, lambda eng, ops, st: ops[0].collapse(np.array(st["dims"], dtype=int)), lambda ops, st: max(st["dims"]) >= ops[0].ndims)
+
+    bad("K.redistribute_negative_mode", "K", lambda c, r: {"operands": [r], "mode": -c.g.randint(1, c.obj(r).ndims)}, lambda eng, ops, st: ops[0].redistribute(st["mode"]), lambda ops, st: st["mode"] < 0)
+    bad("K.nvecs_negative_mode", "K", lambda c, r: {"operands": [r], "mode": -c.g.randint(1, c.obj(r).ndims)}, lambda eng, ops, st: ops[0].nvecs(st["mode"], 1), lambda ops, st: st["mode"] < 0)
+
+    def gen_update_negative(c, r):
+        k = c.obj(r)
+        if k.ndims < 2:
+            return None
+        m = -c.g.randint(2, k.ndims)  # (-1 is the documented name of the weights)
+        return {"operands": [r, c.fresh(rand_array(c.g, (k.shape[m] * k.ncomponents,)))], "mode": m}
+
+    bad("K.update_negative_mode", "K", gen_update_negative, lambda eng, ops, st: ops[0].update(st["mode"], ops[1]), lambda ops, st: st["mode"] < -1)
+
+    def gen_arrange_not_a_permutation(c, r):
+        k = c.obj(r)
+        if k.ncomponents < 2:
+            return None
+        p = list(range(k.ncomponents))
+        p[c.g.randrange(1, k.ncomponents)] = p[0]
+        return {"operands": [r, c.fresh(np.array(p, dtype=int))]}
+
+    bad("K.arrange_not_a_permutation", "K", gen_arrange_not_a_permutation, lambda eng, ops, st: ops[0].arrange(permutation=ops[1]), lambda ops, st: len(set(ops[1].tolist())) != ops[1].shape[0])
+
+    def gen_fixsigns_components(c, r):
+        k = c.obj(r)
+        rk = k.ncomponents + c.g.choice([-1, 1, 2])
+        if rk < 1:
+            return None
+        return {"operands": [r] + [c.fresh(np.asfortranarray(rand_array(c.g, (s, rk)))) for s in shp(k)]}
+
+    bad("K.fixsigns_other_component_count", "K", gen_fixsigns_components, lambda eng, ops, st: ops[0].fixsigns(ttb.ktensor(list(ops[1:]))), lambda ops, st: ops[1].shape[1] != ops[0].ncomponents)
 
     def gen_update(c, r, surplus):
         k = c.obj(r)
@@ -1050,8 +1102,12 @@ def register(cat):
         if x.ndims < 2:
             return None
         sparse = c.heap.kinds[r] == "S"
-        kinds = ["objective_tuple", "optimizer", "init_string"] + (["lbfgsb_sparse", "mask_sparse"] if sparse else ["mask_stochastic"])
-        return {"operands": [r], "kind": c.g.choice(kinds)}
+        kinds = ["objective_tuple", "optimizer", "init_string", "guess_rank"] + (["lbfgsb_sparse", "mask_sparse"] if sparse else ["mask_stochastic"])
+        kind = c.g.choice(kinds)
+        if kind == "guess_rank":
+            rk = c.g.randint(2, 3)
+            return {"operands": [r] + [c.fresh(np.asfortranarray(rand_array(c.g, (s_, rk), 0.1, 1.0))) for s_ in shp(x)], "kind": kind, "rank": rk - 1}
+        return {"operands": [r], "kind": kind}
 
     def run_gcp(eng, ops, st):
         from pyttb.gcp.handles import Objectives, gaussian, gaussian_grad
@@ -1061,6 +1117,8 @@ def register(cat):
         k = st["kind"]
         sparse = isinstance(x, ttb.sptensor)
         good = SGD(max_iters=1, epoch_iters=1, printitn=0) if sparse else LBFGSB(maxiter=1, iprint=-1)
+        if k == "guess_rank":
+            return ttb.gcp_opt(x, st["rank"], Objectives.GAUSSIAN, good, init=ttb.ktensor([f.copy() for f in ops[1:]]), printitn=0)
         if k == "objective_tuple":
             return ttb.gcp_opt(x, 1, (gaussian, gaussian_grad), good, printitn=0)
         if k == "optimizer":
@@ -1079,6 +1137,8 @@ def register(cat):
             return sparse
         if st["kind"] == "mask_stochastic":
             return not sparse
+        if st["kind"] == "guess_rank":
+            return ops[1].shape[1] != st["rank"]
         return ops[0].ndims >= 2
 
     bad("gcp_opt_options", ("T", "S"), gen_gcp, run_gcp, bad_gcp)
